@@ -1,0 +1,25 @@
+//go:build verif
+
+package strategy
+
+// Contracts read by the verification engine in /verif (govc). Comment-only file.
+//
+//@ import v1 "github.com/DataDog/extendeddaemonset/api/v1alpha1"
+//@ import intstr "k8s.io/apimachinery/pkg/util/intstr"
+//@ import podutils "github.com/DataDog/extendeddaemonset/pkg/controller/utils/pod"
+//@ import eds "github.com/DataDog/extendeddaemonset/controllers/extendeddaemonset"
+//@ import conditions "github.com/DataDog/extendeddaemonset/controllers/extendeddaemonsetreplicaset/conditions"
+//@
+//@ func getRollingUpdateStartTime
+//@   transparent
+//@
+//@ func calculateMaxCreation
+//@   requires params != nil && params.SlowStartAdditiveIncrease != nil && params.SlowStartIntervalDuration != nil
+//@   requires params.MaxParallelPodCreation != nil
+//@   modifies nothing
+//@   let inc = intstr.GetValueFromIntOrPercent(params.SlowStartAdditiveIncrease, nbNodes, true)
+//@   let t = now - rsStartTime
+//@   let iv = params.SlowStartIntervalDuration.Duration
+//@   ensures [C09] ramp-formula: result1 == nil && t >= 0 && iv > 0 ==> result == min(*params.MaxParallelPodCreation, (1 + t / iv) * fst(inc))
+//@   ensures [C09] never-above-max-parallel: result1 == nil ==> result <= *params.MaxParallelPodCreation
+//@   ensures error-iff-bad-increase: result1 != nil <==> snd(inc) != nil
